@@ -125,15 +125,13 @@ Fixpoint add_at (i : nat) (v : Q) (l : list Q) : list Q :=
   | x :: t, O => Qred (x + v) :: t
   | x :: t, S j => x :: add_at j v t
   end.
-(* the two index_add_ calls for one batch row: atom j of the target distribution p moves to L_j and u_j *)
+(* the two index_add_ calls for one batch row: atom (z, p) of the target distribution moves to L and u *)
+Definition rb_step (g vmin vmax dz : Q) (n : nat) (r d : Q) (acc : list Q) (zp : Q * Q) : list Q :=
+  let b := rb_b g vmin vmax dz n r d (fst zp) in
+  let '(L, u) := rb_lu n b in
+  add_at (Z.to_nat u) (snd zp * (b - inject_Z L)) (add_at (Z.to_nat L) (snd zp * (inject_Z u - b)) acc).
 Definition rb_project (g vmin vmax dz : Q) (r d : Q) (support p : list Q) : list Q :=
-  let n := length support in
-  fold_left (fun acc zp =>
-               let b := rb_b g vmin vmax dz n r d (fst zp) in
-               let '(L, u) := rb_lu n b in
-               add_at (Z.to_nat u) (snd zp * (b - inject_Z L))
-                 (add_at (Z.to_nat L) (snd zp * (inject_Z u - b)) acc))
-            (combine support p) (repeat 0 n).
+  fold_left (rb_step g vmin vmax dz (length support) r d) (combine support p) (repeat 0 (length support)).
 Record rrow := {
   r_r : Q; r_d : Q;
   r_p : list Q;       (* actor_target(next, q=False)[row, argmax_a actor(next)[row]]  (target distribution) *)
